@@ -1,5 +1,5 @@
 """The registered checks, one function per property."""
-import argparse, json, os, random, shutil, sys, time
+import argparse, itertools, json, os, random, shutil, sys, time
 import common as C
 from common import Result, ToolError, run_mc, run_pipeline, build_harness, log
 import gens
@@ -492,7 +492,7 @@ def check_C09(tier, seed):
     res.add_mc(run_mc("MC_TzString", dict(EmitVec="TRUE", MaxTok=3 if q else 4, PartA="TRUE", PartB="TRUE"), workers=C.NCPU, vec_out=raw, timeout=6000, xmx="8g"))
     run_pipeline(res, binary, "vec", vec_path=raw, validate=False)
     os.remove(raw)
-    run_pipeline(res, binary, "strings", gen_lines=gens.gen_tzstrings(rng, 6000 if q else 100000), nshards=12 if q else 16)
+    run_pipeline(res, binary, "strings", gen_lines=itertools.chain(gens.gen_ext_edge(), gens.gen_tzstrings(rng, 6000 if q else 100000)), nshards=12 if q else 16)
     def near_rules():
         # a sentence also has to be a rule the library can hold: start and end days that coincide or nearly do in some years, times
         # and offsets a few minutes either side of zero, written out (the decision must be the constructor's, C11)
@@ -603,7 +603,23 @@ def gen_thread_sessions(rng, nz):
 def check_C15(tier, seed):
     import scan, subprocess
     res = Result("C15", tier, seed, "other")
-    binary = need_binary(res)
+    # (0) auto traits of every public type (compile-time), by a stand-alone target that needs nothing of the executor: a change of
+    # the public signatures that drops Send/Sync (e.g. of the boxed error inside tz::Error) may keep the executor from compiling,
+    # and is still reported for what it is
+    b0, err0 = build_harness("chk")
+    d = C.harness_dir()
+    r = subprocess.run(["cargo", "check", "--offline", "--profile", "chk", "--features", "assert-traits", "--bin", "traitcheck", "--target-dir", "target-traits"], cwd=d, capture_output=True, text=True)
+    if r.returncode != 0:
+        if "E0277" not in r.stderr and b0 is None:
+            raise ToolError("harness build failed:\n" + err0)
+        res.violation("C15-auto-trait-missing", {"op": "assert-traits", "a": {}, "r": {"compile_error": r.stderr[-1500:]}})
+    res.notes["auto_trait_assertions"] = "19 public types: Send + Sync + 'static (+ RefUnwindSafe, Copy for value types)"
+    if b0 is None:
+        if res.violations:
+            res.notes["executor"] = "the executor does not build against this tree (public signatures changed); only the compile-time assertions were evaluated"
+            return res.finish()
+        raise ToolError("harness build failed:\n" + err0)
+    binary = b0
     rng = random.Random(seed * 7919 + 15)
     q = tier == "quick"
     # (1) the model: all interleavings of the faithful library give sequential results; with a shared cell TLC must find the torn read
@@ -620,12 +636,6 @@ def check_C15(tier, seed):
     res.notes["files_scanned"] = nfiles
     res.notes["footprint_facts"] = [dict(kind=f["kind"], file=f["file"], line=f["line"]) for f in facts]
     run_pipeline(res, binary, "footprint", gen_lines=({"op": "footprint", "a": f} for f in facts), nshards=1)
-    # (3) auto traits of every public type (compile-time)
-    d = C.harness_dir()
-    r = subprocess.run(["cargo", "check", "--offline", "--profile", "chk", "--features", "assert-traits", "--target-dir", "target-traits"], cwd=d, capture_output=True, text=True)
-    if r.returncode != 0:
-        res.violation("C15-auto-trait-missing", {"op": "assert-traits", "a": {}, "r": {"compile_error": r.stderr[-1500:]}})
-    res.notes["auto_trait_assertions"] = "19 public types: Send + Sync + 'static (+ RefUnwindSafe, Copy for value types)"
     # (4) N threads on shared zones: every thread must get the sequential result for every call; the sequential trace is validated
     inp = os.path.join(C.OUT, "C15-threads.in")
     with open(inp, "w") as f:
